@@ -173,3 +173,27 @@ Proof. exact (conj ex3_not_canonical (conj ex3_side (conj ex3_valid (conj ex3_bl
 
 Print Assumptions C10_model_refines_reference_any_order.
 Print Assumptions C10_reference_validator_order_independent.
+
+(* ================= L1 over several epochs (worker link; proofs/LinkEpoch*.v, LinkSeal.v) =================
+   model_epochs: the model of the code run with the application's sealing policy mk_policy (epoch k seals at
+   the block of frame [seal] with the validators next_vals polr vals_k k), per epoch Build + Process of
+   that epoch's events (events of a closed epoch are skipped by the application's epoch guard and rendered
+   with the reference's code 7).  The result — per epoch: verdict and Build frame of every event, blocks
+   up to the sealing one, sealed? — equals reference_epochs.  epochs_ok: for every epoch that is reached,
+   the validator list has no duplicate ids / zero weights, total weight < 2^31 and the epoch's events are
+   a valid run; ids are not temporary ids (counter <= K >= number of events, K < 2^192). *)
+From LV Require Import proofs.LinkEpoch proofs.LinkSeal proofs.LinkEpochs proofs.LinkEpochsCor proofs.LinkEpochsExample.
+
+Theorem C10_model_refines_reference_epochs : forall cap lam seal polr vals Ds K,
+  epochs_ok seal polr vals 1 Ds ->
+  (forall D e, In D Ds -> In e D -> id_fresh K (eid (fe e))) -> N.of_nat (total_events Ds) <= K -> K < 2 ^ 192 ->
+  model_epochs cap lam (mk_policy seal polr vals 1 (length Ds)) polr (start 1 vals) vals 1 Ds = reference_epochs seal polr vals 1 Ds.
+Proof. exact link_epochs. Qed.
+
+Example C10_model_epochs_example :
+  epochs_ok 1 0 ex_vals 1 me_Ds /\ (forall D e, In D me_Ds -> In e D -> id_fresh 200 (eid (fe e))) /\
+  map (fun r => (snd (fst r), snd r, length (filter (fun c => fst c =? 7) (fst (fst r))))) (reference_epochs 1 0 ex_vals 1 me_Ds)
+    = [([(1, 1000, [])], true, 25%nat); ([(1, 3000, [])], true, 25%nat)] /\
+  model_epochs 200 (fun _ => 0) (mk_policy 1 0 ex_vals 1 2) 0 (start 1 ex_vals) ex_vals 1 me_Ds = reference_epochs 1 0 ex_vals 1 me_Ds.
+Proof. exact (conj me_ok (conj me_fresh (conj me_reference me_refines_by_evaluation))). Qed.
+Print Assumptions C10_model_refines_reference_epochs.
